@@ -374,3 +374,36 @@ def run_backends(case: dict, ctx, backends, want) -> dict:
 
 def fmt_err(errs):
     return "; ".join(f"{w}: {m}" for w, m, _ in errs)[:600]
+
+
+def preamble(out, backends, viol, obs, sanitizer_is_violation=True):
+    """Turn pipeline failures into violations; return the list of back-ends with usable runs."""
+    usable = []
+    for w, m, tb in out["errors"]:
+        kind = "emitted_code_does_not_compile" if w.startswith("compile") else "generator_or_run_failure"
+        viol.append(violation(kind, f"{w}: {m}", trace=tb))
+    for be in backends:
+        o = out.get(be)
+        if not o or "runs" not in o:
+            continue
+        for p in o["problems"]:
+            viol.append(violation("slot_binding", f"{be}: {p[0]} {p[1]}", backend=be))
+        if o["sanitizer"]:
+            obs["sanitizer_reports"] += len(o["sanitizer"])
+            if sanitizer_is_violation:
+                viol.append(violation("sanitizer_report", f"{be}: {o['sanitizer'][0][:300]}", backend=be, stderr=o.get("stderr_tail")))
+        if o.get("crashed") and not o["sanitizer"]:
+            viol.append(violation("driver_crash", f"{be}: driver exited abnormally", stderr=o.get("stderr_tail")))
+            continue
+        obs[f"backend_{be}"] += 1
+        usable.append(be)
+    return usable
+
+
+def describe(case) -> dict:
+    return {"reactions": [f"{' + '.join(r['reactants'] + ([r['pseudo']] if r.get('pseudo') else []))} -> {' + '.join(r['products'])}"
+                          for r in case["net"]["reactions"][:6]],
+            "n_reactions": len(case["net"]["reactions"]), "n_species": len(case["net"]["species"]),
+            "entry": case.get("entry"), "cooling": case.get("cooling"),
+            "ode_modifier": {k: {"factors": [f[0] for f in v["factors"]], "reactants": v["reactants"]}
+                             for k, v in (case.get("ode_modifier") or {}).items()} or None}
